@@ -10,6 +10,6 @@ cargo build --release -p vcheck || exit 1
 "$VERIF_ROOT/tools/build_features.sh" || echo "setup: feature builds failed (C16 will report)"
 ( cd "$VERIF_ROOT/harness/fuzzhost" && cargo +nightly fuzz build session --target-dir "$VERIF_ROOT/harness/target/fuzz" >/dev/null 2>&1 && cargo +nightly fuzz build lockstep --target-dir "$VERIF_ROOT/harness/target/fuzz" >/dev/null 2>&1 && cargo +nightly fuzz build fdiff --target-dir "$VERIF_ROOT/harness/target/fuzz" >/dev/null 2>&1 ) || echo "setup: fuzz build unavailable (C03 and the lock-step checks degrade to their proptest parts)"
 ( cd "$VERIF_ROOT/harness" && cargo build -p stackprobe >/dev/null 2>&1 ) || echo "setup: stack probe build failed (C03 will note it)"
-( cd "$VERIF_ROOT/harness" && cargo build --release -p plainrun --target-dir "$VERIF_ROOT/harness/target/plain-off" >/dev/null 2>&1 && cargo build --release -p plainrun --features hooks --target-dir "$VERIF_ROOT/harness/target/plain-on" >/dev/null 2>&1 ) || echo "setup: hook-free runner build failed (C01, C03, C05 will report it as inconclusive)"
+( cd "$VERIF_ROOT/harness" && cargo build --release -p plainrun --target-dir "$VERIF_ROOT/harness/target/plain-off" >/dev/null 2>&1 && cargo build --release -p plainrun --features hooks --target-dir "$VERIF_ROOT/harness/target/plain-on" >/dev/null 2>&1 && cargo build --profile plain -p plainrun --target-dir "$VERIF_ROOT/harness/target/plain-rel" >/dev/null 2>&1 ) || echo "setup: hook-free runner build failed (C01, C03, C05 will report it as inconclusive)"
 "$VERIF_ROOT/harness/target/release/vcheck" --warm || true
 exit 0
